@@ -221,6 +221,8 @@ pub struct World {
     pub faults_done: u32,
     pub crashes_done: u32,
     pub stall_pct: u64,
+    /// probe phase: the environment is cooperative (no faults, pay succeeds)
+    pub cooperative: bool,
     pub rng: crate::prng::Rng,
     pub rec_cache: Vec<Option<(u64, Rec)>>,
     pub notified: Vec<(String, String)>,
